@@ -57,6 +57,8 @@ def _ctor_data(case):
     if f == "int":
         n = case["n"]
         return [(i, 1) for i in (range(1, n + 1) if n > 0 else range(n, 0))]
+    if f == "range":
+        return [(i, 1) for i in range(*case["range"])]
     if f == "p":
         dice = [C.dec_items(h) for h in case["dice"]]
         dice = [d for d in dice if sum(c for _, c in d)]
@@ -73,6 +75,22 @@ def _ctor_data(case):
     raise KeyError(f)
 
 
+def _container(case, data):
+    """the same data in another iterable type (list, tuple, one-shot iterator, generator, deque)"""
+    import collections
+
+    c = case.get("container", "list")
+    if c == "tuple":
+        return tuple(data)
+    if c == "iter":
+        return iter(data)
+    if c == "gen":
+        return (x for x in data)
+    if c == "deque":
+        return collections.deque(data)
+    return data
+
+
 def _ctor_build(case):
     from dyce import H, P
 
@@ -80,11 +98,13 @@ def _ctor_build(case):
     if f == "mapping":
         return H({C.dec_out(o): c for o, c in case["items"]})
     if f == "pairs":
-        return H([(C.dec_out(o), c) for o, c in case["items"]])
+        return H(_container(case, [(C.dec_out(o), c) for o, c in case["items"]]))
+    if f == "range":
+        return H(range(*case["range"]))
     if f == "h":
         return H(H([(C.dec_out(o), c) for o, c in case["items"]]))
     if f == "outcomes":
-        return H([C.dec_out(o) for o in case["outs"]])
+        return H(_container(case, [C.dec_out(o) for o in case["outs"]]))
     if f == "int":
         return H(case["n"])
     if f == "p":
@@ -304,11 +324,14 @@ def generate(rnd, tier, scale):
                     j = rnd.randrange(len(items))
                     items.append([items[j][0], -1])
                     rnd.shuffle(items)
-                yield dict(k="ctor", form=form, items=items)
+                yield dict(k="ctor", form=form, items=items, container=rnd.choice(["list", "list", "tuple", "iter", "gen", "deque"]))
             elif form == "outcomes":
                 outs = [o for o, c in a for _ in range(min(c, 3))]
                 rnd.shuffle(outs)
-                yield dict(k="ctor", form=form, outs=outs)
+                yield dict(k="ctor", form=form, outs=outs, container=rnd.choice(["list", "list", "tuple", "iter", "gen", "deque"]))
+                if rnd.random() < 0.5:
+                    a, b = rnd.randint(-3, 3), rnd.randint(-3, 6)
+                    yield dict(k="ctor", form="range", range=rnd.choice([[a, b, 1], [b, a, -1], [a, b, 2], [b, a, -2], [b]]))
             elif form == "int":
                 yield dict(k="ctor", form=form, n=rnd.choice([0, 1, 2, 3, 6, -1, -2, -4]))
             else:
